@@ -372,6 +372,29 @@ fn replay_honest(c: &mut Concretiser, idx: usize, case: &Value) -> Value {
         // operations on sealed tokens must be refused (C08), on both API paths
         for (i, t) in real.iter().enumerate() {
             if spec_toks[i]["tok"]["proof"]["kind"] == "seal" {
+                // the sealed token keeps blocks, revocation ids and authorises like its source (C08)
+                let src = log[i]["from"].as_u64().unwrap() as usize - 1;
+                let root = keys::public_of(&spec_toks[i]["root"]);
+                let a = Biscuit::from(real[src].to_vec(), root);
+                let b = Biscuit::from(t.to_vec(), root);
+                match (a, b) {
+                    (Ok(a), Ok(b)) => {
+                        if a.revocation_identifiers() != b.revocation_identifiers() {
+                            problems.push(format!("mask {mask}: sealing changed the revocation identifiers"));
+                        }
+                        if a.print() != b.print() {
+                            problems.push(format!("mask {mask}: sealing changed the printed token"));
+                        }
+                        for az in ["allow if right(1);", "allow if operation(null); deny if true;", "check if resource(2); allow if true;", "allow if right(3) trusting ed25519/0000000000000000000000000000000000000000000000000000000000000000;"] {
+                            let ra = a.authorizer().and_then(|_| biscuit_auth::builder::AuthorizerBuilder::new().code(az)?.build(&a)).and_then(|mut z| z.authorize());
+                            let rb = b.authorizer().and_then(|_| biscuit_auth::builder::AuthorizerBuilder::new().code(az)?.build(&b)).and_then(|mut z| z.authorize());
+                            if format!("{ra:?}") != format!("{rb:?}") {
+                                problems.push(format!("mask {mask}: sealed token authorises differently under {az:?}: {ra:?} vs {rb:?}"));
+                            }
+                        }
+                    }
+                    _ => problems.push(format!("mask {mask}: sealed token or its source not admitted")),
+                }
                 for unv in [false, true] {
                     for name in ["append", "append3p", "seal"] {
                         let op = json!({"op": name, "from": i + 1, "nk": {"id": "KX", "alg": "ed"}, "ek": {"id": "E", "alg": "ed"}, "p": if name == "append3p" {"T1"} else {"P1"}});
@@ -407,4 +430,29 @@ pub fn cmd_honest(input: &str, output: &str) {
 #[allow(dead_code)]
 pub fn keypair_dummy() -> KeyPair {
     keys::keypair("x", "ed")
+}
+
+/// C15 uniqueness on the real code: independently minted tokens with identical
+/// content never share a revocation identifier.
+pub fn cmd_unique(n: usize, output: &str) {
+    use std::collections::HashSet;
+    let mut seen: HashSet<Vec<u8>> = HashSet::new();
+    let mut dup = 0usize;
+    let mut total = 0usize;
+    for alg in ["ed", "p256"] {
+        let root = keys::keypair("R", alg);
+        for _ in 0..n {
+            let b = Biscuit::builder().code("right(1);").unwrap().build(&root).unwrap();
+            let b2 = b.append(BlockBuilder::new().code("right(1);").unwrap()).unwrap();
+            let b3 = b.append(BlockBuilder::new().code("right(1);").unwrap()).unwrap();
+            for id in b2.revocation_identifiers().into_iter().chain(b3.revocation_identifiers().into_iter().skip(1)) {
+                total += 1;
+                if !seen.insert(id) {
+                    dup += 1;
+                }
+            }
+        }
+    }
+    std::fs::write(output, json!({"ids": total, "duplicates": dup}).to_string()).unwrap();
+    println!("chain-unique: {total} ids, {dup} duplicates");
 }
